@@ -274,7 +274,7 @@ def report(mod, tier, total, wall, extra_cov=None, write_evidence=True):
         print('  observed=%s' % v['observed'])
         if v.get('detail'):
             print('  detail=%s' % short(v['detail'], 600).replace('\n', '\n    '))
-    if write_evidence:
+    if write_evidence and not os.environ.get('VERIF_NO_EVIDENCE'):
         desc = mod.describe(tier) if hasattr(mod, 'describe') else {}
         cov = {
             'evaluations': total['evaluations'],
